@@ -13,7 +13,7 @@ from simkit.scram import ScramServer
 
 PROP = "C18"
 LEVEL = "exploration"
-RUNS = {"quick": 3000, "thorough": 100000}
+RUNS = {"quick": 10000, "thorough": 300000}
 SHRINK_LISTS = ()
 TAMPERS = ["nonce_prefix", "nonce_replaced", "salt", "iterations", "signature", "signature",
            "sig_truncate", "sig_extend", "error_instead_of_verifier"]
